@@ -63,6 +63,20 @@ def ExpShape (s : List Nat) : Prop :=
     (frac = [] ∨ ∃ fp, frac = 46 :: fp ∧ allDigits fp = true) ∧
     (esign = 43 ∨ esign = 45) ∧ allDigits ex = true ∧ 2 ≤ ex.length
 
+/-! ## underscores in numerals -/
+
+/-- an adjacent pair `a b` is fine when an underscore has a digit on its other side -/
+def adjOk (a b : Nat) : Bool := (b != 95 || isDig a) && (a != 95 || isDig b)
+
+def pairsOk : List Nat → Bool
+  | a :: b :: rest => adjOk a b && pairsOk (b :: rest)
+  | _ => true
+
+/-- "underscores only between digits": every `_` has a digit immediately before and after it
+    (in particular the text neither starts nor ends with `_`). -/
+def UnderscoresOk (s : List Nat) : Prop :=
+  pairsOk s = true ∧ s.head? ≠ some 95 ∧ s.getLast? ≠ some 95
+
 /-! ## `float()` grammar as a regular expression (Brzozowski derivatives) -/
 
 inductive Re where
